@@ -205,6 +205,28 @@ CHECKS['C12'] = dict(
          'iff present in every probe), merged parameters, loadable result.',
     design_ref='4 (C12)', technique='TLA+/TLC model checking + trace validation of real merges (step wrappers)',
     note=_NOTE + ' Known finding (not repaired): zero x-extent of a preceding probe leaves no gap.')
+_ALF = ('Alf.tla: the conversion pipeline of EphysAlfCreator.convert, one action per step, over the file names of the '
+        'source and target directories (rename table, label insertion, subset files, temp_wh.dat); TLC proves '
+        'Labelled, SourceFrame and TargetComplete on all 64 skeletons (raw data / KSLabel / temp_wh.dat / probe '
+        'table / whitening / label). Every skeleton x curation kind x unit factor is materialised, converted by '
+        'the real code and compared with the specification (directory listings, labels), plus datasets merged '
+        'from 1..4 probes by the real Merger; the exported tables are projected and validated by Trace_Alf; ')
+CHECKS['C13'] = dict(
+    text=_ALF + 'C13: first dimensions of every spikes/clusters/templates/channels table, cluster count rule, unique '
+         'uuids, spike times in seconds / samples in samples, reload equality on six attributes, the same-directory '
+         'guard (raises, writes nothing), the source frame by hashing (only temp_wh.dat deleted, only the three '
+         'subset files added), the exact set of target files with the label before the extension.',
+    design_ref='4 (C13)', technique='TLA+/TLC model checking of the pipeline over file names + spec-to-code replay + trace validation',
+    note=_NOTE + ' Probe tables are constant or produced by the real merger; ids below 65536.')
+CHECKS['C14'] = dict(
+    text=_ALF + 'C14: spike / template / cluster amplitudes as exact rationals with the unit factor, exported waveforms = '
+         'rescaled unwhitened waveforms on the listed channels (1/256), listed channels = a valid set of the '
+         'nearest same-probe channels under L1 distance with the peak channel first (relational on ties), '
+         'cluster peak channels, durations in samples, cluster depths (NaN for empty ids), spike depths '
+         '(feature-weighted or the cluster depth), channels.rawInd = each probe\'s original channel map for '
+         'merged datasets of up to 4 probes.',
+    design_ref='4 (C14)', technique='TLA+/TLC model checking of the pipeline over file names + trace validation of exported values',
+    note=_NOTE + ' Two known findings (not repaired): clusters.depths of un-curated empty ids; short probes padded with other-probe channels.')
 
 NOT_APPLICABLE = {}
 for e in ENGINES:
